@@ -8,7 +8,7 @@
     * `Tables` : the data tables of the Go code (format lookup + mask, version BCH words, VERSIONS,
       ECI registry), instantiated by the driver/obligations with the tables regenerated from /repo;
     * `rs` : Reed-Solomon block decoding (`ReedSolomonDecoder.Decode`), a function parameter — the
-      driver plugs in the executable mirror of Model/QRRS.lean, theorems take it as a hypothesis;
+      driver plugs in the C04 model `Gzx.RS.decode qrCode256` (as do the composed theorems of C01/C05);
     * text codecs: the result of parsing is a list of segments `(charset, bytes)`; turning them into
       a string is golang.org/x/text's job and outside the model.
   Scope: square matrices (`Matrix.dim`); the non-square case is defect D4, owned by C06.
